@@ -19,7 +19,7 @@ def site_sample(F, s):
 def wrapper_sites(ctx, rr, fn_regex, callee, min_sites=1, label=None):
     """All census sites of `callee` inside functions matching fn_regex must be discharged."""
     F = ctx.F()
-    S = [s for s in get_census(ctx) if re.search(fn_regex, s.body.key) and s.cname == callee and not s.debug_only]
+    S = [s for s in get_census(ctx) if path_matches(fn_regex, s.body.key) and s.cname == callee and not s.debug_only]
     fns = sorted(set(s.body.key for s in S))
     if len(S) < min_sites:
         raise AnchorMissing("no call of %s found in a safe function matching /%s/ (found %d sites, expected >= %d)" % (callee, fn_regex, len(S), min_sites))
@@ -502,7 +502,7 @@ def r12_1(ctx, rr):
     table = load_table("assumed_sites.json")["entries"]
     allowed = {}
     for e in table:
-        allowed[(e["fn"], e["callee"], e["obligation"])] = e
+        allowed[(canon_generics(e["fn"]), e["callee"], e["obligation"])] = e
     groups = {}
     for s in S:
         rr.instances += 1
@@ -511,7 +511,9 @@ def r12_1(ctx, rr):
         else:
             groups.setdefault((s.body.key, s.cname, s.descr), []).append(s)
     for k, sites in sorted(groups.items()):
-        e = allowed.get(k)
+        # table entries name functions as printed on the tree they were confirmed on; compare without the
+        # names of generic type parameters
+        e = allowed.get((canon_generics(k[0]), k[1], k[2]))
         n_allowed = e["count"] if e else 0
         key = "%s:%s:%s" % (short_fn(k[0]), k[1].split("::")[-1], k[2])
         if len(sites) <= n_allowed:
